@@ -59,6 +59,30 @@ CHECKS = {
     design_ref="DESIGN.md section 3 C08",
     note="Token level, two layouts (one token per line; all on one line).",
     technique="TLA+ push-down reference grammar (tolerant variant) + TLC; spec->code replay"),
+ "C14": dict(
+    text="spec/PvlValues.tla holds the date/time recogniser and denotation per dialect (shapes, calendar validity, zones, leap seconds, PDS3 "
+         "restrictions); spec/MC_DateTime.tla renders texts from the boundary product of field values and TLC checks that the recogniser agrees with a "
+         "field-level statement of the expected denotation; each text is decoded by the 5 real decoders and loaded through the lexer and compared; "
+         "in the encode direction Python temporal values x 4 encoders are judged by TLC (spec/Trace_Time.tla: same type, instant, precision, or refusal). "
+         "Thorough: every day of years 0001-9999 in both date forms from the TLC calendar table (spec/MC_Calendar.tla).",
+    design_ref="DESIGN.md section 3 C14",
+    note="Non-canonical field widths (2001-1-1, 1:2) and colon-less offsets (+0530) are left unspecified; fractions are covered by boundary classes, not all 10^6 values.",
+    technique="TLA+ value/calendar model + TLC bounded exhaustive enumeration; spec->code replay and code->spec judging of encoder output"),
+ "C15": dict(
+    text="Allowed(d, c) in spec/PvlValues.tla is the character table; the real char_allowed() of the 5 grammars is evaluated on all 1 114 112 code points "
+         "and every code point of every logged range is checked by TLC (spec/Trace_Chars.tla); TLC builds texts with a code point at 11 kinds of position "
+         "(spec/MC_Chars.tla, with model-level theorems that a disallowed character before END is a lexical rejection at that character and that nothing "
+         "after END matters) and real loads are judged: LexerError iff disallowed before END, pos/lineno/colno mutually consistent and near the character.",
+    design_ref="DESIGN.md section 3 C15",
+    note="Positions use class representatives of the code space (every code point <= 0x17F plus 4096 seeded others in thorough).",
+    technique="TLA+ character tables and loader + TLC exhaustive table check; trace judging of real loads"),
+ "C17": dict(
+    text="Classify(d, s) in spec/PvlValues.tla is the total, exclusive classification (TLC checks totality and the derived theorems over all token texts <= 4/5 "
+         "over a 13-character alphabet, spec/MC_Class.tla); for every enumerated text and every single-edit mutation of a 110-word lexicon x 5 grammar/decoder "
+         "pairs the Token predicates, decode_simple_value outcome and encoder quoting decision are recorded and judged by TLC (spec/Trace_Class.tla).",
+    design_ref="DESIGN.md section 3 C17",
+    note="Domain: non-empty token texts without white space unless quoted.  Differences between the library's class and the reference class are reported under C03.",
+    technique="TLA+ classification model + TLC bounded exhaustive enumeration; code->spec judging of classification records"),
 }
 PENDING_REASON = "check not built yet in this round (planned, see DESIGN.md section 6); not claimed until it runs"
 ALL = ["C%02d" % i for i in range(1, 21)]
